@@ -28,6 +28,9 @@ pub struct Out {
     pub notes: BTreeMap<String, String>,
     /// C11 panic sweep: keep only `D` and `J nopanic` lines of the sub-run, count the rest
     pub sweep: bool,
+    /// in a sweep, also keep lines of the sub-run that carry a PANIC token (off for modules whose
+    /// entry points are not C11 input channels, e.g. the policy compiler)
+    pub sweep_tokens: bool,
     pub swept: u64,
 }
 
@@ -43,6 +46,7 @@ impl Out {
             samples: Vec::new(),
             notes: BTreeMap::new(),
             sweep: false,
+            sweep_tokens: true,
             swept: 0,
         }
     }
@@ -60,7 +64,7 @@ impl Out {
             // (typed constructor arguments are not one of C11's input channels: C12's `keyonly` /
             // `keyok` lines, where Descriptor::new_pk(<x-only>) is a recorded observation, stay out)
             let constructor_line = op.starts_with("C keyonly") || op.starts_with("J keyok");
-            if !constructor_line && (has_panic(op) || has_panic(ans)) {
+            if self.sweep_tokens && !constructor_line && (has_panic(op) || has_panic(ans)) {
                 let tag: String = op.split(' ').filter(|w| *w != "PANIC").collect::<Vec<_>>().join("_");
                 let short: String = tag.chars().take(400).collect();
                 writeln!(self.ops, "J nopanic swept-line {} PANIC", short).unwrap();
